@@ -62,7 +62,7 @@ def gen(prop, tier, seed):
                         elif ek == 4:
                             parts.append("E %d %d R %d" % (h, vt_events, r.choice([1, 100, 65536])))
                         else:
-                            parts.append("E %d %d X %d" % (h, vt_events, r.randrange(256)))
+                            parts.append("E %d %d X %d" % (h, vt_events, r.choice([0, 0, r.randrange(256), r.randrange(256)])))
                 parts.append(start_tokens(h, {k2: v for k2, v in o.items() if not k2.startswith("_")}))
             elif k < 20:
                 parts.append("P %d" % h)
